@@ -217,9 +217,24 @@ func Execute(cfg Cfg, alphabet []Op, hist []int, seed int64, run int) *RunResult
 	rr.Lines = append(rr.Lines, Line{K: "fin", Run: run, Fin: fin})
 	rr.Panics = w.Panics
 	rr.Calls = w.Calls
-	b, _ := json.Marshal(fin["res"])
-	rr.Sig = string(b)
+	rr.Sig = outcomeSig(fin)
 	return rr
+}
+
+// outcomeSig is the abstract outcome of a run: per keyper result row, share check, vote and the
+// equality class of its eon key (not the key itself, which differs from run to run).
+func outcomeSig(fin J) string {
+	res, _ := fin["res"].([]J)
+	class := map[string]int{}
+	var parts []string
+	for _, r := range res {
+		pk := fmt.Sprint(r["pk"], "/", r["pks"])
+		if _, ok := class[pk]; !ok {
+			class[pk] = len(class)
+		}
+		parts = append(parts, fmt.Sprintf("%v,%v,%v,%v,%d", r["done"], r["ok"], r["share"], r["vote"], class[pk]))
+	}
+	return strings.Join(parts, ";")
 }
 
 // VResult is the RESULT record printed by DKGTrace.
@@ -264,16 +279,17 @@ type ReplayFile struct {
 
 // Outcome of replaying + validating one plan.
 type Outcome struct {
-	Gen      *Gen
-	Runs     int
-	Calls    int
-	Lines    int
-	Traces   int
-	Distinct int
-	Findings []Finding
-	Drift    []Line
-	Samples  []any
-	runs     map[int]*RunResult
+	Gen          *Gen
+	Runs         int
+	Calls        int
+	Lines        int
+	Traces       int
+	Distinct     int
+	DistinctRuns int
+	Findings     []Finding
+	Drift        []Line
+	Samples      []any
+	runs         map[int]*RunResult
 }
 
 func pick(c *core.Ctx, g *Gen) [][]int {
@@ -324,6 +340,7 @@ func ReplayAndValidate(c *core.Ctx, g *Gen) (*Outcome, error) {
 	}
 	wg.Wait()
 	sigs := map[string]bool{}
+	hists := map[string]bool{}
 	for i, r := range results {
 		if r.Err != nil {
 			return nil, fmt.Errorf("run %d (%v): %v", i+1, r.Hist, r.Err)
@@ -332,8 +349,12 @@ func ReplayAndValidate(c *core.Ctx, g *Gen) (*Outcome, error) {
 		out.Runs++
 		out.Calls += r.Calls
 		sigs[r.Sig] = true
+		if len(r.Lines) == len(r.Hist)+2 {
+			hists[fmt.Sprint(r.Hist)] = true
+		}
 	}
 	out.Distinct = len(sigs)
+	out.DistinctRuns = len(hists)
 	// validate in chunks
 	const perChunk = 60
 	type chunk struct {
@@ -433,7 +454,8 @@ func plansC07(thorough bool) []Plan {
 		return []Plan{
 			{Name: "n3-honest", Cfg: Cfg{N: 3, T: 2, Byz: []int{}, PhaseLen: 2}, Windows: true, MaxBeh: 40},
 			{Name: "n3-byz3", Cfg: Cfg{N: 3, T: 2, Byz: []int{3}, PhaseLen: 2}, Windows: true, MaxBeh: 140},
-			{Name: "n4-sim", Cfg: Cfg{N: 4, T: 2, Byz: []int{2, 4}, PhaseLen: 2}, Partial: true, MaxRej: 2, AccuseAny: true, Simulate: 25},
+			{Name: "n3-sim", Cfg: Cfg{N: 3, T: 2, Byz: []int{2}, PhaseLen: 3}, Partial: true, MaxRej: 2, AccuseAny: true, Simulate: 12},
+			{Name: "n4-sim", Cfg: Cfg{N: 4, T: 2, Byz: []int{2, 4}, PhaseLen: 2}, Partial: true, MaxRej: 2, AccuseAny: true, Simulate: 20},
 		}
 	}
 	return []Plan{
@@ -441,6 +463,7 @@ func plansC07(thorough bool) []Plan {
 		{Name: "n3-byz3", Cfg: Cfg{N: 3, T: 2, Byz: []int{3}, PhaseLen: 2}, Windows: true, Partial: true, MaxBeh: 3000},
 		{Name: "n3-byz1-rej", Cfg: Cfg{N: 3, T: 2, Byz: []int{1}, PhaseLen: 2}, Windows: true, MaxRej: 1, MaxBeh: 1500},
 		{Name: "n3-t3", Cfg: Cfg{N: 3, T: 3, Byz: []int{}, PhaseLen: 2}, Windows: true, MaxBeh: 200},
+		{Name: "n3-sim", Cfg: Cfg{N: 3, T: 2, Byz: []int{2}, PhaseLen: 3}, Partial: true, MaxRej: 2, AccuseAny: true, Simulate: 400},
 		{Name: "n4-sim", Cfg: Cfg{N: 4, T: 2, Byz: []int{2, 4}, PhaseLen: 2}, Partial: true, MaxRej: 2, AccuseAny: true, Simulate: 400},
 		{Name: "n4-t3-sim", Cfg: Cfg{N: 4, T: 3, Byz: []int{1}, PhaseLen: 3}, Partial: true, MaxRej: 2, AccuseAny: true, Simulate: 300},
 		{Name: "n5-sim", Cfg: Cfg{N: 5, T: 3, Byz: []int{1, 4}, PhaseLen: 2}, Partial: true, MaxRej: 2, AccuseAny: true, Simulate: 300},
@@ -549,7 +572,7 @@ func writeEvidenceC07(c *core.Ctx, outs []*Outcome, violations int, leads []stri
 		}
 		traces += o.Traces
 		evals += o.Runs
-		distinct += o.Distinct
+		distinct += o.DistinctRuns
 		samples = append(samples, o.Samples...)
 		plans = append(plans, J{"plan": o.Gen.Plan, "tlc_distinct_states": o.Gen.Distinct, "tlc_states_generated": o.Gen.States,
 			"tlc_wall_s": o.Gen.Wall, "behaviours_printed": len(o.Gen.Behaviours), "runs_replayed": o.Runs,
@@ -564,7 +587,7 @@ func writeEvidenceC07(c *core.Ctx, outs []*Outcome, violations int, leads []stri
 		"rule": "exhaustive plans: TLC enumerates every state of the bounded DKG model (adversary messages x block placements) and checks the C07 monitors on each; " +
 			"it prints one complete behaviour per distinct final state, of which a seeded sample (all, if fewer than maxBeh) is replayed on the real keyper code; " +
 			"simulate plans: random behaviours of the unbounded-timing model. evaluations = complete DKG runs executed on the real code and validated by DKGTrace; " +
-			"distinct_nontrivial = distinct observed outcome vectors (per keyper: result row, keys, vote) among them",
+			"distinct_nontrivial = distinct behaviours (op sequences) among them that were executed to the end of the key generation (every op applied, outcome read); distinct_outcomes per plan = distinct abstract outcome vectors (per keyper: result row, share check, vote, key equality class)",
 		"plans": plans, "spec_level_counterexamples": leads,
 	}
 	err := ev.Write(ev.Evidence{PropertyID: c.Prop, Tier: c.Tier, Seed: c.Seed, Level: "model_checking", Coverage: cov,
